@@ -127,7 +127,7 @@ fn dump<'tcx>(tcx: TyCtxt<'tcx>, name: &str) -> J {
                             ("public", J::B(f.vis.is_public())),
                         ]));
                     }
-                    variants.push(o(vec![("name", s(v.name.to_string())), ("fields", J::A(fields))]));
+                    variants.push(o(vec![("name", s(v.name.to_string())), ("explicit_discr", J::B(matches!(v.discr, ty::VariantDiscr::Explicit(_)))), ("fields", J::A(fields))]));
                 }
                 let selfty = tcx.type_of(did).instantiate_identity().skip_norm_wip();
                 cx.walk_ty(selfty);
